@@ -145,10 +145,11 @@ Qed.
 
 (* to_text of a URL without scheme and authority *)
 Lemma to_text_rel u :
-  u_scheme u = [] -> authority_text u = [] -> to_text u = recompose (uri_of u).
+  u_scheme u = [] -> authority_text u = [] -> starts_with [SL; SL] (path_text u) = false ->
+  to_text u = recompose (uri_of u).
 Proof.
-  intros Hs Ha. unfold to_text, recompose, uri_of, opt. cbn [scheme authority path query fragment].
-  cbv zeta. rewrite Hs, Ha. cbn [nonempty andb app]. rewrite !opt_render. unfold opt.
+  intros Hs Ha Hss. unfold to_text, recompose, uri_of, opt. cbn [scheme authority path query fragment].
+  cbv zeta. rewrite Hs, Ha, Hss. cbn [nonempty andb orb app]. rewrite !opt_render. unfold opt.
   destruct (nonempty (path_text u)) eqn:E; [reflexivity|].
   destruct (path_text u); [reflexivity|discriminate].
 Qed.
@@ -256,7 +257,8 @@ Proof.
   { unfold uri_of. rewrite (path_text_join r (wr_segs r W)), (quote_frag_id _ (wr_frag r W)),
       (ref_authority r W), (wr_scheme r W). reflexivity. }
   split; [exact Hu|]. split.
-  - apply to_text_rel; [exact (wr_scheme r W) | exact (ref_authority r W)].
+  - apply to_text_rel; [exact (wr_scheme r W) | exact (ref_authority r W) |].
+    rewrite (path_text_join r (wr_segs r W)). exact (wr_no_ss r W).
   - rewrite Hu. constructor; cbn [scheme authority path query fragment]; try exact I.
     + apply join_chars; [reflexivity|]. eapply Forall_impl; [|exact (wr_segs r W)]. apply seg_ok_path_chars.
     + exact (wr_no_ss r W).
